@@ -1286,3 +1286,149 @@ Proof.
     apply andb_true_iff in Hx as [H123 _]. apply andb_true_iff in H123 as [H12 _].
     apply andb_true_iff in H12 as [_ H2]. apply negb_true_iff. exact H2.
 Qed.
+
+(* ---------- Sphinx conf values ---------- *)
+
+Definition vres (E : env) (f : field) (x : jv) : res jv :=
+  match validate E (f_val f) x with Ok co => Ok (coerced co x) | Raise e => Raise e end.
+
+Lemma vf_equiv E (g1 g2 : field -> jv) fs :
+  (forall f, In f fs -> vres E f (g1 f) = vres E f (g2 f)) ->
+  validate_fields E fs (map (fun f => (f_name f, g1 f)) fs) =
+  validate_fields E fs (map (fun f => (f_name f, g2 f)) fs).
+Proof.
+  induction fs as [|f fs IH]; intro H; [reflexivity|]. simpl.
+  pose proof (H f (or_introl eq_refl)) as Hf. unfold vres in Hf.
+  rewrite IH by (intros g Hg; apply H; right; exact Hg).
+  destruct (validate E (f_val f) (g1 f)) as [c1|e1], (validate E (f_val f) (g2 f)) as [c2|e2];
+    simpl; try discriminate Hf.
+  - inv Hf. rewrite H1. reflexivity.
+  - inv Hf. reflexivity.
+Qed.
+
+Lemma vf_entries E (g : field -> jv) fs : forall d,
+  nodup_names (map f_name fs) = true ->
+  validate_fields E fs (map (fun f => (f_name f, g f)) fs) = Ok d ->
+  forall f, In f fs -> exists co, validate E (f_val f) (g f) = Ok co /\
+                                  cfg_get (f_name f) d = Some (coerced co (g f)).
+Proof.
+  induction fs as [|h fs IH]; intros d ND H f Hin; [destruct Hin|].
+  simpl in ND. apply nodup_cons in ND as [Hnot ND]. simpl in H.
+  destruct (validate E (f_val h) (g h)) as [co|e] eqn:V; simpl in H; [|discriminate].
+  destruct (validate_fields E fs _) as [rest|e] eqn:R; simpl in H; [|discriminate].
+  inv H. destruct Hin as [->|Hin].
+  - exists co. split; [exact V|]. simpl. rewrite str_eqb_refl. reflexivity.
+  - destruct (IH rest ND eq_refl f Hin) as [co' [V' G']]. exists co'. split; [exact V'|].
+    simpl. destruct (str_eqb (f_name h) (f_name f)) eqn:E0; [|exact G'].
+    apply str_eqb_eq in E0. exfalso. apply Hnot. rewrite E0. apply in_map. exact Hin.
+Qed.
+
+Lemma cfg_get_app n a b :
+  cfg_get n (a ++ b) = match cfg_get n a with Some v => Some v | None => cfg_get n b end.
+Proof.
+  induction a as [|[k x] a IH]; simpl; [reflexivity|]. destruct (str_eqb k n); [reflexivity|exact IH].
+Qed.
+
+Definition sphinx_entry (conf d : config) (f : field) : list (str * jv) :=
+  if f_omit_sphinx f then []
+  else match cfg_get (f_name f) conf, cfg_get (f_name f) d with
+       | Some v, _ => [(f_name f, v)]
+       | None, Some x => [(f_name f, x)]
+       | None, None => []
+       end.
+
+Lemma sphinx_entry_names conf d f n : In n (map fst (sphinx_entry conf d f)) -> n = f_name f.
+Proof.
+  unfold sphinx_entry. destruct (f_omit_sphinx f); [intros []|].
+  destruct (cfg_get (f_name f) conf); [intros [H|[]]; auto|].
+  destruct (cfg_get (f_name f) d); [intros [H|[]]; auto|intros []].
+Qed.
+
+Lemma sphinx_kw_names conf d fs n :
+  In n (map fst (flat_map (sphinx_entry conf d) fs)) -> In n (map f_name fs).
+Proof.
+  induction fs as [|f fs IH]; simpl; [intros []|].
+  rewrite map_app, in_app_iff. intros [H|H].
+  - left. symmetry. eapply sphinx_entry_names. exact H.
+  - right. apply IH. exact H.
+Qed.
+
+Lemma sphinx_kw_get conf d fs f :
+  nodup_names (map f_name fs) = true -> In f fs ->
+  cfg_get (f_name f) (flat_map (sphinx_entry conf d) fs) =
+  if f_omit_sphinx f then None
+  else match cfg_get (f_name f) conf, cfg_get (f_name f) d with
+       | Some v, _ => Some v
+       | None, Some x => Some x
+       | None, None => None
+       end.
+Proof.
+  induction fs as [|h fs IH]; intros ND Hin; [destruct Hin|].
+  simpl in ND. apply nodup_cons in ND as [Hnot ND]. simpl. rewrite cfg_get_app.
+  destruct Hin as [->|Hin].
+  - assert (T : cfg_get (f_name f) (flat_map (sphinx_entry conf d) fs) = None).
+    { apply cfg_get_notin. intro H. apply Hnot. eapply sphinx_kw_names. exact H. }
+    unfold sphinx_entry at 1. destruct (f_omit_sphinx f); [exact T|].
+    destruct (cfg_get (f_name f) conf); [simpl; rewrite str_eqb_refl; reflexivity|].
+    destruct (cfg_get (f_name f) d); [simpl; rewrite str_eqb_refl; reflexivity|exact T].
+  - assert (Hd : cfg_get (f_name f) (sphinx_entry conf d h) = None).
+    { apply cfg_get_notin. intro H. apply sphinx_entry_names in H. apply Hnot. rewrite <- H. apply in_map. exact Hin. }
+    rewrite Hd. apply IH; assumption.
+Qed.
+
+(* every conf key names a field that the Sphinx extension registers *)
+Definition conf_ok (fs : list field) (conf : config) : Prop :=
+  forall n v, In (n, v) conf -> exists f, In f fs /\ f_name f = n /\ f_omit_sphinx f = false.
+
+Lemma cfg_get_In n c v : cfg_get n c = Some v -> In (n, v) c.
+Proof.
+  induction c as [|[k x] c IH]; simpl; [discriminate|].
+  destruct (str_eqb k n) eqn:E; intro H.
+  - inv H. apply str_eqb_eq in E. subst. auto.
+  - right. auto.
+Qed.
+
+Lemma same_name_same_field fs f g :
+  nodup_names (map f_name fs) = true -> In f fs -> In g fs -> f_name f = f_name g -> f = g.
+Proof.
+  intros ND Hf Hg E. pose proof (find_field_in _ _ ND Hf) as A. pose proof (find_field_in _ _ ND Hg) as B.
+  rewrite E in A. rewrite A in B. inv B. reflexivity.
+Qed.
+
+Theorem sphinx_conf_equal E fs conf d :
+  nodup_names (map f_name fs) = true ->
+  forallb (fun f => simple_validator (f_val f)) fs = true ->
+  mk_config E fs [] = Ok d -> conf_ok fs conf ->
+  sphinx_config E fs conf = mk_config E fs conf.
+Proof.
+  intros ND SV D CO. unfold sphinx_config. rewrite D. cbn [bind].
+  fold (sphinx_entry conf d). unfold mk_config.
+  (* both keyword checks pass *)
+  assert (K1 : forallb (fun kv => match find_field (fst kv) fs with Some _ => true | None => false end)
+                       (flat_map (sphinx_entry conf d) fs) = true).
+  { apply forallb_forall. intros [n v] Hin.
+    assert (Hn : In n (map f_name fs)) by (eapply sphinx_kw_names; apply (in_map fst _ _ Hin)).
+    destruct (find_field_some _ _ Hn) as [f Hf]. simpl. rewrite Hf. reflexivity. }
+  assert (K2 : forallb (fun kv => match find_field (fst kv) fs with Some _ => true | None => false end) conf = true).
+  { apply forallb_forall. intros [n v] Hin. destruct (CO n v Hin) as [f [Hf [Hn _]]].
+    simpl. rewrite <- Hn, (find_field_in _ _ ND Hf). reflexivity. }
+  rewrite K1, K2. cbn [negb]. unfold raw_of.
+  apply vf_equiv. intros f Hf. unfold lookup_kw.
+  rewrite (sphinx_kw_get conf d fs f ND Hf).
+  (* the entries of the default instance *)
+  unfold mk_config in D. simpl in D. unfold raw_of in D.
+  assert (D' : validate_fields E fs (map (fun f0 => (f_name f0, f_default f0)) fs) = Ok d).
+  { erewrite map_ext; [exact D|]. intro a. unfold lookup_kw. simpl. reflexivity. }
+  destruct (vf_entries E f_default fs d ND D' f Hf) as [co [V G]].
+  destruct (f_omit_sphinx f) eqn:Om.
+  - (* not registered: conf has no entry for it *)
+    destruct (cfg_get (f_name f) conf) as [v|] eqn:C; [|reflexivity].
+    exfalso. apply cfg_get_In in C. destruct (CO _ _ C) as [g [Hg [Hn Og]]].
+    rewrite (same_name_same_field fs g f ND Hg Hf Hn) in Og. congruence.
+  - destruct (cfg_get (f_name f) conf) as [v|]; [reflexivity|]. rewrite G.
+    (* default: the registered value is the validated default *)
+    unfold vres. rewrite V.
+    assert (S : stable E (f_val f) (coerced co (f_default f))).
+    { apply validated_is_stable; [|exact V]. rewrite forallb_forall in SV. apply SV. exact Hf. }
+    destruct S as [S|S]; rewrite S; reflexivity.
+Qed.
